@@ -271,30 +271,38 @@ func (f *snapFileWrap) Close() error {
 	if f.collide {
 		return f.SnapshotFile.Discard() // the case is already discarded; do not let the library abort the process
 	}
-	err := f.in.storageOp(StorageInfo{Op: "snap.close", File: f.id}, func() error { return f.SnapshotFile.Close() })
-	if err == nil && !f.in.dead.Load() {
-		md := f.SnapshotFile.Metadata()
-		info := SnapInfo{File: f.id, Index: md.LastIncludedIndex, Term: md.LastIncludedTerm, ConfH: HashBytes(md.Configuration),
-			Len: f.tee.Len(), H: HashBytes(f.tee.Bytes()), Origin: f.origin}
-		if conf, derr := f.in.node.c.net.codec.DecodeConfiguration(md.Configuration); derr == nil {
-			info.Conf = confString(&conf)
+	return f.in.storageOp(StorageInfo{Op: "snap.close", File: f.id}, func() error {
+		err := f.SnapshotFile.Close()
+		// the snapshot is visible from here on: record it as part of the operation itself, so that a
+		// crash "immediately after" this operation (whose image contains the snapshot) knows about it
+		if err == nil && !f.in.dead.Load() {
+			f.recordSnapFile()
 		}
-		items, derr := DecodeLedger(f.tee.Bytes())
-		if derr != nil {
-			info.DecodeErr = derr.Error()
-		} else {
-			info.LedgerLen = len(items)
-			info.LedgerH = ledgerHash(items)
-			for _, it := range items {
-				info.Ledger = append(info.Ledger, it.Index)
-			}
-			if len(items) > 0 {
-				info.LedgerLast = items[len(items)-1].Index
-			}
-		}
-		f.in.node.c.rec.Add(Event{Kind: "snapfile", Node: f.in.node.ID, Inc: f.in.inc, Snap: &info})
+		return err
+	})
+}
+
+func (f *snapFileWrap) recordSnapFile() {
+	md := f.SnapshotFile.Metadata()
+	info := SnapInfo{File: f.id, Index: md.LastIncludedIndex, Term: md.LastIncludedTerm, ConfH: HashBytes(md.Configuration),
+		Len: f.tee.Len(), H: HashBytes(f.tee.Bytes()), Origin: f.origin}
+	if conf, derr := f.in.node.c.net.codec.DecodeConfiguration(md.Configuration); derr == nil {
+		info.Conf = confString(&conf)
 	}
-	return err
+	items, derr := DecodeLedger(f.tee.Bytes())
+	if derr != nil {
+		info.DecodeErr = derr.Error()
+	} else {
+		info.LedgerLen = len(items)
+		info.LedgerH = ledgerHash(items)
+		for _, it := range items {
+			info.Ledger = append(info.Ledger, it.Index)
+		}
+		if len(items) > 0 {
+			info.LedgerLast = items[len(items)-1].Index
+		}
+	}
+	f.in.node.c.rec.Add(Event{Kind: "snapfile", Node: f.in.node.ID, Inc: f.in.inc, Snap: &info})
 }
 
 func (f *snapFileWrap) Discard() error {
